@@ -149,8 +149,8 @@ var registry = []propertySpec{
 		Harnesses: []harnessSpec{
 			{Name: "VerifC08_Diff", Quick: tierSpec{Cases: 36, Split: 2}, Thorough: tierSpec{Cases: 36, Split: 2}, Sched: -1,
 				Bounds: "two independent trees: root with 0..2 children (plain with symbolic value in {A,B}, BIRT, RESI, DATE with symbolic year), the first child of either tree optionally with a grandchild; then every sequence of two diff operations from {String, IsDeepEqual, Sort, Tag}"},
-			{Name: "VerifC08_Events", Quick: tierSpec{Cases: 16}, Thorough: tierSpec{Cases: 16}, Sched: -1,
-				Bounds: "a child of kind EVEN / BIRT / RESI / plain (symbolic value) with 2 or 3 children (plain with symbolic values in {A,B}, optionally a DATE with a symbolic year) against a copy with every re-ordering of those grandchildren; CompareNodes, String, Sort, DeepEqual"},
+			{Name: "VerifC08_Events", Quick: tierSpec{Cases: 32}, Thorough: tierSpec{Cases: 32}, Sched: -1,
+				Bounds: "a child of kind EVEN / BIRT / RESI / plain (symbolic value) with 2 or 3 children (plain with symbolic values in {A,B}, optionally a DATE with a symbolic year, optionally two more levels below a grandchild) against a copy with every re-ordering of those grandchildren; CompareNodes, String, Sort, DeepEqual"},
 			{Name: "VerifC08_Equal", Quick: tierSpec{Cases: 9}, Thorough: tierSpec{Cases: 9}, Sched: -1,
 				Bounds: "a tree with 1..3 children (0, 1 or 2 grandchildren under the first, equal ones included) and every reordering of a deep copy; plus one uniquely tagged extra leaf at depth 1 and at depth 2; IsDeepEqual against the harness's own recursion over the entries"},
 		},
